@@ -1233,6 +1233,13 @@ def _array_index(pe, st, args, t):
         n = tgt[2] - tgt[1]
     else:
         raise _Abort("top", "indexing a non-array")
+    if idx[0] == "iter" and len(idx) == 3 and all(x != TOP and x[0] == "int" for x in idx[1]):
+        # an inclusive range (modelled as the sequence of its values) used as an index
+        vals_ = [x[2] for x in idx[1][idx[2]:]]
+        if vals_ and vals_ == list(range(vals_[0], vals_[0] + len(vals_))):
+            idx = ("adt", "std::ops::Range", 0, "Range", (mk_int("usize", vals_[0]), mk_int("usize", vals_[-1] + 1)))
+        elif not vals_:
+            raise _Abort("top", "empty inclusive range used as an index")
     if idx[0] == "adt" and idx[1] in ("std::ops::Range", "std::ops::RangeFrom", "std::ops::RangeTo", "std::ops::RangeFull", "std::ops::RangeToInclusive"):
         kind = idx[1].rsplit("::", 1)[1]
         if any(x == TOP or x[0] != "int" for x in idx[4]):
